@@ -23,11 +23,83 @@ class NeverK:
 # out to find it (positional or keyword, keyword-only, after another parameter, next to ``**kw``, bound method, ...).
 SIGS = ('pos', 'kw', 'pos_kwargs', 'kw_kwargs', 'extra_kw', 'kwonly', 'kwonly_kwargs', 'second', 'second_kw', 'posonly',
         'method', 'varpos', 'varkw', 'unannotated_first')
-SIG_WEIGHTS = (40, 6, 4, 8, 4, 5, 6, 4, 5, 3, 4, 4, 4, 3)
+SIGS += ('async', 'cls_method', 'cls_classmethod', 'cls_staticmethod', 'dataclass_init')
+SIG_WEIGHTS = (40, 6, 4, 8, 4, 5, 6, 4, 5, 3, 4, 4, 4, 3, 3, 3, 3, 3, 4)
+# ... and of the callable whose *return* carries the hint: plain function, coroutine function (the check runs when the
+# coroutine finishes), or a method / classmethod / staticmethod / property of a class decorated as a whole
+RSIGS = ('plain', 'async', 'cls_method', 'cls_classmethod', 'cls_staticmethod', 'cls_property', 'method')
+RSIG_WEIGHTS = (60, 8, 7, 6, 6, 7, 6)
 
 
 def gen_sig(rng):
-    return rng.choices(SIGS, SIG_WEIGHTS)[0]
+    return rng.choices(SIGS, SIG_WEIGHTS)[0] + '/' + rng.choices(RSIGS, RSIG_WEIGHTS)[0]
+
+
+def _drive(coro):
+    """Run a coroutine that never suspends to completion."""
+    try:
+        coro.send(None)
+    except StopIteration as e:
+        return e.value
+    coro.close()
+    raise RuntimeError('coroutine suspended')
+
+
+def _mk_return(rsig, hint, ran, deco):
+    def note():
+        ran['return'] += 1
+    if rsig == 'async':
+        async def f(a):
+            note()
+            return a
+        f.__annotations__ = {'return': hint}
+        g = deco(f)
+        return lambda x: _drive(g(x))
+    if rsig == 'method':
+        class C:
+            def m(self, a):
+                note()
+                return a
+        C.m.__annotations__ = {'return': hint}
+        C.m = deco(C.m)
+        c = C()
+        return lambda x: c.m(x)
+
+    class K:
+        def m(self, a):
+            note()
+            return a
+
+        @classmethod
+        def cm(cls, a):
+            note()
+            return a
+
+        @staticmethod
+        def sm(a):
+            note()
+            return a
+
+        @property
+        def pr(self):
+            note()
+            return self.value
+    which = {'cls_method': K.m, 'cls_classmethod': K.__dict__['cm'].__func__, 'cls_staticmethod': K.__dict__['sm'].__func__,
+             'cls_property': K.__dict__['pr'].fget}[rsig]
+    which.__annotations__ = {'return': hint}
+    K = deco(K)
+    k = K()
+    if rsig == 'cls_method':
+        return lambda x: k.m(x)
+    if rsig == 'cls_classmethod':
+        return lambda x: K.cm(x)
+    if rsig == 'cls_staticmethod':
+        return lambda x: K.sm(x)
+
+    def call(x):
+        k.value = x
+        return k.pr
+    return call
 
 
 def _mk_param(sig, hint, ran, deco):
@@ -105,6 +177,39 @@ def _mk_param(sig, hint, ran, deco):
         f.__annotations__ = {'a': hint}
         g = deco(f)
         return lambda x: g(k=x)
+    if sig == 'async':
+        async def f(a):
+            note()
+            return a
+        f.__annotations__ = {'a': hint}
+        g = deco(f)
+        return lambda x: _drive(g(x))
+    if sig in ('cls_method', 'cls_classmethod', 'cls_staticmethod'):
+        class K:
+            def m(self, a):
+                note()
+                return a
+
+            @classmethod
+            def cm(cls, a, *more):
+                note()
+                return a
+
+            @staticmethod
+            def sm(a, b=None):
+                note()
+                return a
+        which = {'cls_method': K.m, 'cls_classmethod': K.__dict__['cm'].__func__, 'cls_staticmethod': K.__dict__['sm'].__func__}[sig]
+        which.__annotations__ = {'a': hint}
+        K = deco(K)
+        k = K()
+        return {'cls_method': lambda x: k.m(x), 'cls_classmethod': lambda x: k.cm(x), 'cls_staticmethod': lambda x: K.sm(a=x)}[sig]
+    if sig == 'dataclass_init':
+        # the generated __init__ of a dataclass decorated as a whole; __post_init__ stands for "the callable ran"
+        import dataclasses
+        D = dataclasses.make_dataclass('D', [('a', hint)], namespace={'__post_init__': lambda self: note()})
+        D = deco(D)
+        return lambda x: D(x).a
     if sig == 'unannotated_first':
         def f(u, a, **kw):
             note()
@@ -121,7 +226,10 @@ class Prepared:
     def __init__(self, hint, conf_kw, prebuilt_conf=None, sig='pos'):
         from beartype import beartype, door
         self.hint = hint
-        self.sig = sig if sig in SIGS else 'pos'
+        # 'psig' or 'psig/rsig': the shape of the callable whose parameter carries the hint / whose return does
+        psig, _, rsig = (sig or 'pos').partition('/')
+        self.sig = psig if psig in SIGS else 'pos'
+        self.rsig = rsig if rsig in RSIGS else 'plain'
         self.conf_kw = conf_kw
         self.conf = prebuilt_conf if prebuilt_conf is not None else ops.build_conf(conf_kw)
         self.door = door
@@ -138,6 +246,8 @@ class Prepared:
             ran = self.ran
             if pos == 'param' and self.sig != 'pos':
                 return _mk_param(self.sig, hint, ran, beartype(conf=self.conf))
+            if pos == 'return' and self.rsig != 'plain':
+                return _mk_return(self.rsig, hint, ran, beartype(conf=self.conf))
 
             def f(a):
                 ran[pos] += 1
